@@ -19,10 +19,13 @@ structure Sys where
   truth : Int → Option VSet
   /-- lowest retained height -/
   base : Int
+  /-- ghost: no `Rollback` so far (then no record exists above the tip) -/
+  clean : Bool
 
 inductive Ev
   | block (ch : List Val)
   | prune (frm to : Int)
+  | rollback
 
 /-- the first `Save` of a start state on an empty database; the recorded sets are the state's
 `Validators` (initial height) and `NextValidators` (initial height + 1) -/
@@ -32,7 +35,7 @@ def Sys.ofInitial (ih : Int) (st : State) : Option Sys :=
   | none => none
   | some db =>
     some ⟨db, st, fun k => if k = ih then some st.validators
-                           else if k = ih + 1 then some st.nextValidators else none, ih⟩
+                           else if k = ih + 1 then some st.nextValidators else none, ih, true⟩
 
 /-- genesis: `MakeGenesisState` + `Save` on an empty database -/
 def Sys.init (ih : Int) (valz : List Val) : Option Sys :=
@@ -56,14 +59,20 @@ def Sys.step (s : Sys) : Ev → Sys
     | .ok st' =>
       match save s.db st' with
       | some db' =>
-        ⟨db', st', fun k => if k = blockHeight s.st + 2 then some st'.nextValidators else s.truth k, s.base⟩
+        ⟨db', st', fun k => if k = blockHeight s.st + 2 then some st'.nextValidators else s.truth k, s.base, s.clean⟩
       | none => s
     | _ => s
   | .prune a b =>
     let r := pruneStates s.db a b
     ⟨r.1, s.st, s.truth,
       if r.2 = .errArgs ∨ r.2 = .errNoVals ∨ r.2 = .errNoParams then s.base
-      else if s.base ≤ b then b else s.base⟩
+      else if s.base ≤ b then b else s.base, s.clean⟩
+  | .rollback =>
+    -- `state.Rollback` with the block store at the state's height; the recorded history is kept
+    -- (the rolled-back block may be re-applied with other updates later)
+    match rollback s.db s.st with
+    | .ok db' st' => ⟨db', st', s.truth, s.base, false⟩
+    | _ => s
 
 def Sys.run (s : Sys) (evs : List Ev) : Sys := evs.foldl Sys.step s
 
@@ -83,11 +92,12 @@ structure Good (t : Tbl Info) (rec : Int → Option VSet) (h : Int) (info : Info
       incrTimes (h - lastStoredHeightFor h info.lhc).toNat p2 = some v ∧ rec h = some v
 
 /-- structural facts about every record present in the table -/
-structure GRec (t : Tbl Info) (k : Int) (info : Info) : Prop where
+structure GRec (t : Tbl Info) (top : Int) (k : Int) (info : Info) : Prop where
   pos : 1 ≤ k
   lhc_le : info.lhc ≤ k
   set_iff : info.set.isSome ↔ (k = info.lhc ∨ k % 100000 = 0)
-  mono : ∀ k2 i2, k ≤ k2 → t.get k2 = some i2 → info.lhc ≤ i2.lhc ∧ (i2.lhc ≤ k → info.lhc = i2.lhc)
+  mono : ∀ k2 i2, k ≤ k2 → k2 ≤ top → t.get k2 = some i2 →
+    info.lhc ≤ i2.lhc ∧ (i2.lhc ≤ k → info.lhc = i2.lhc)
 
 structure Inv (s : Sys) : Prop where
   base_pos : 1 ≤ s.base
@@ -98,8 +108,13 @@ structure Inv (s : Sys) : Prop where
   rec_tip : s.truth (tip s.st) = some s.st.nextValidators
   lhvc_tip : ∀ info, s.db.vals.get (tip s.st) = some info → info.lhc = s.st.lhvc
   good : ∀ h, s.base ≤ h → h ≤ tip s.st → ∃ info, s.db.vals.get h = some info ∧ Good s.db.vals s.truth h info
-  grec : ∀ k info, s.db.vals.get k = some info → GRec s.db.vals k info
-  above : ∀ k, tip s.st < k → s.db.vals.get k = none
+  grec : ∀ k info, k ≤ tip s.st → s.db.vals.get k = some info → GRec s.db.vals (tip s.st) k info
+  above : s.clean = true → ∀ k, tip s.st < k → s.db.vals.get k = none
+  cur_full : Full s.st.validators
+  last_full : s.st.lastBlockHeight ≠ 0 → Full s.st.lastValidators
+  cur_truth : s.base ≤ tip s.st - 1 → s.truth (tip s.st - 1) = some s.st.validators
+  last_truth : s.st.lastBlockHeight ≠ 0 → s.base ≤ tip s.st - 2 →
+    s.truth (tip s.st - 2) = some s.st.lastValidators
 
 theorem blockHeight_pos (s : Sys) (hi : Inv s) : 1 ≤ blockHeight s.st := by
   unfold blockHeight
@@ -179,7 +194,7 @@ theorem good_new (s : Sys) (hi : Inv s) (nv' : VSet)
   have hT : 2 ≤ tip s.st := by have := blockHeight_pos s hi; unfold tip; omega
   obtain ⟨infoT, hgetT, hgT⟩ := hi.good (tip s.st) hi.base_le (Int.le_refl _)
   have hc : infoT.lhc = s.st.lhvc := hi.lhvc_tip _ hgetT
-  have hG := hi.grec _ _ hgetT
+  have hG := hi.grec _ _ (Int.le_refl _) hgetT
   have hcle : s.st.lhvc ≤ tip s.st := hc ▸ hG.lhc_le
   constructor
   · intro p hp; cases hp
@@ -233,7 +248,7 @@ theorem inv_block (s : Sys) (hi : Inv s) (ch : List Val) : Inv (s.step (.block c
     | .ok st' =>
       match save s.db st' with
       | some db' =>
-        ⟨db', st', fun k => if k = blockHeight s.st + 2 then some st'.nextValidators else s.truth k, s.base⟩
+        ⟨db', st', fun k => if k = blockHeight s.st + 2 then some st'.nextValidators else s.truth k, s.base, s.clean⟩
       | none => s
     | _ => s)
   cases hu : updateState s.st (blockHeight s.st) ch with
@@ -272,10 +287,13 @@ theorem inv_block (s : Sys) (hi : Inv s) (ch : List Val) : Inv (s.step (.block c
       -- the record at the old tip
       obtain ⟨infoT, hgetT, hgT⟩ := hi.good (tip s.st) hi.base_le (Int.le_refl _)
       have hcT : infoT.lhc = s.st.lhvc := hi.lhvc_tip _ hgetT
-      have hGT := hi.grec _ _ hgetT
+      have hGT := hi.grec _ _ (Int.le_refl _) hgetT
+      have hval : st'.validators = s.st.nextValidators := by rw [hst']
+      have hlast : st'.lastValidators = s.st.validators := by rw [hst']
       refine ⟨hi.base_pos, by show s.base ≤ tip st'; rw [htip']; have := hi.base_le; omega,
         hih ▸ hi.ih_pos, by show 0 ≤ st'.lastBlockHeight; omega,
-        hnext ▸ hfull', ?_, ?_, ?_, ?_, ?_⟩
+        hnext ▸ hfull', ?_, ?_, ?_, ?_, ?_, by show Full st'.validators; rw [hval]; exact hi.next_full,
+        by intro _; show Full st'.lastValidators; rw [hlast]; exact hi.cur_full, ?_, ?_⟩
       · -- rec_tip
         rw [htip', hnext]; simp [hkey]
       · -- lhvc_tip
@@ -314,7 +332,10 @@ theorem inv_block (s : Sys) (hi : Inv s) (ch : List Val) : Inv (s.step (.block c
           · have : ¬ h = blockHeight s.st + 2 := by omega
             simp [this]
       · -- grec
-        intro k info hk
+        intro k info hkt hk
+        have hkt' : k ≤ tip s.st + 1 := by rw [← htip']; exact hkt
+        show GRec db'.vals (tip st') k info
+        rw [htip']
         by_cases hh : k = tip s.st + 1
         · subst hh
           rw [hgetnew] at hk
@@ -327,24 +348,16 @@ theorem inv_block (s : Sys) (hi : Inv s) (ch : List Val) : Inv (s.step (.block c
             by_cases hcond : tip s.st + 1 = c ∨ (tip s.st + 1) % 100000 = 0
             · simp [hcond]
             · simp [hcond]
-          · intro k2 i2 hk2 hget2
-            by_cases hk2e : k2 = tip s.st + 1
-            · subst hk2e; rw [hgetnew] at hget2
-              have : i2.lhc = c := by cases hget2; rfl
-              rw [hinfo, this]; exact ⟨Int.le_refl _, fun _ => rfl⟩
-            · have : s.db.vals.get k2 = none := hi.above k2 (by omega)
-              rw [hdb, Tbl.get_put] at hget2
-              simp [hk2e, this] at hget2
-        · have hkle : k ≤ tip s.st := by
-            by_cases hlt : tip s.st < k
-            · have : s.db.vals.get k = none := hi.above k hlt
-              rw [hdb, Tbl.get_put] at hk
-              simp [hh, this] at hk
-            · omega
+          · intro k2 i2 hk2 hk2t hget2
+            have hk2e : k2 = tip s.st + 1 := by omega
+            subst hk2e; rw [hgetnew] at hget2
+            have : i2.lhc = c := by cases hget2; rfl
+            rw [hinfo, this]; exact ⟨Int.le_refl _, fun _ => rfl⟩
+        · have hkle : k ≤ tip s.st := by omega
           rw [hgetlow k hkle] at hk
-          have hG := hi.grec k info hk
+          have hG := hi.grec k info hkle hk
           refine ⟨hG.pos, hG.lhc_le, hG.set_iff, ?_⟩
-          intro k2 i2 hk2 hget2
+          intro k2 i2 hk2 hk2t hget2
           by_cases hk2e : k2 = tip s.st + 1
           · subst hk2e; rw [hgetnew] at hget2
             have hi2 : i2.lhc = c := by cases hget2; rfl
@@ -354,24 +367,39 @@ theorem inv_block (s : Sys) (hi : Inv s) (ch : List Val) : Inv (s.step (.block c
               constructor
               · omega
               · intro hle; omega
-            · have := hG.mono (tip s.st) infoT hkle hgetT
+            · have := hG.mono (tip s.st) infoT hkle (Int.le_refl _) hgetT
               rw [hcT, ← hc2] at this
               exact this
-          · have hk2le : k2 ≤ tip s.st := by
-              by_cases hlt : tip s.st < k2
-              · have : s.db.vals.get k2 = none := hi.above k2 hlt
-                rw [hdb, Tbl.get_put] at hget2
-                simp [hk2e, this] at hget2
-              · omega
+          · have hk2le : k2 ≤ tip s.st := by omega
             rw [hgetlow k2 hk2le] at hget2
-            exact hG.mono k2 i2 hk2 hget2
+            exact hG.mono k2 i2 hk2 hk2le hget2
       · -- above
-        intro k hk
-        rw [htip'] at hk
+        intro hcl k hk
+        have hk' : tip st' < k := hk
+        rw [htip'] at hk'
+        show db'.vals.get k = none
         rw [hdb, Tbl.get_put]
         have : ¬ k = tip s.st + 1 := by omega
         simp only [this, if_false]
-        exact hi.above k (by omega)
+        exact hi.above hcl k (by omega)
+      · -- cur_truth
+        intro _
+        show (if tip st' - 1 = blockHeight s.st + 2 then _ else s.truth (tip st' - 1)) = some st'.validators
+        rw [htip', hval]
+        have : ¬ tip s.st + 1 - 1 = blockHeight s.st + 2 := by omega
+        simp only [this, if_false]
+        have : tip s.st + 1 - 1 = tip s.st := by omega
+        rw [this]; exact hi.rec_tip
+      · -- last_truth
+        intro _ hb
+        have hb' : s.base ≤ tip st' - 2 := hb
+        rw [htip'] at hb'
+        show (if tip st' - 2 = blockHeight s.st + 2 then _ else s.truth (tip st' - 2)) = some st'.lastValidators
+        rw [htip', hlast]
+        have : ¬ tip s.st + 1 - 2 = blockHeight s.st + 2 := by omega
+        simp only [this, if_false]
+        have e : tip s.st + 1 - 2 = tip s.st - 1 := by omega
+        rw [e]; exact hi.cur_truth (by omega)
 
 /-! ### genesis -/
 
@@ -488,7 +516,9 @@ theorem inv_ofInitial (ih : Int) (hih : 1 ≤ ih) (st : State) (hinit : Initial 
               rw [this]; exact incrTimes_one _ _ hnxt
       refine ⟨hih, by show ih ≤ tip st; rw [htip]; omega, by show 1 ≤ st.initialHeight; omega,
         by show 0 ≤ st.lastBlockHeight; omega, by show Full st.nextValidators; rw [hN]; exact hfulln,
-        by show (if tip st = ih then _ else _) = _; rw [htip, hN]; simp [hne1], ?_, ?_, ?_, ?_⟩
+        by show (if tip st = ih then _ else _) = _; rw [htip, hN]; simp [hne1], ?_, ?_, ?_, ?_,
+        by show Full st.validators; rw [hV]; exact hfull,
+        by intro h; exact absurd hLBH h, ?_, by intro h; exact absurd hLBH h⟩
       · intro info hinfo
         show info.lhc = st.lhvc
         have hinfo' : db.vals.get (tip st) = some info := hinfo
@@ -508,7 +538,9 @@ theorem inv_ofInitial (ih : Int) (hih : 1 ≤ ih) (st : State) (hinit : Initial 
           constructor
           · intro p hp; cases hp; exact ⟨by simp, hfull⟩
           · intro hn; cases hn
-      · intro k info hk
+      · intro k info _ hk
+        have hk : db.vals.get k = some info := hk
+        show GRec db.vals (tip st) k info
         rw [hget] at hk
         by_cases hk1 : k = ih + 1
         · subst hk1
@@ -516,7 +548,7 @@ theorem inv_ofInitial (ih : Int) (hih : 1 ≤ ih) (st : State) (hinit : Initial 
           subst hk
           refine ⟨by omega, by show ih ≤ ih + 1; omega, ?_, ?_⟩
           · by_cases hc : (ih + 1) % 100000 = 0 <;> simp [hc, hne1]
-          · intro k2 i2 hk2 hg2
+          · intro k2 i2 hk2 _ hg2
             rw [hget] at hg2
             by_cases hk2e : k2 = ih + 1
             · simp [hk2e] at hg2; subst hg2; exact ⟨Int.le_refl _, fun _ => rfl⟩
@@ -527,7 +559,7 @@ theorem inv_ofInitial (ih : Int) (hih : 1 ≤ ih) (st : State) (hinit : Initial 
             simp [hk1] at hk
             subst hk
             refine ⟨hih, Int.le_refl _, by simp, ?_⟩
-            intro k2 i2 hk2 hg2
+            intro k2 i2 hk2 _ hg2
             rw [hget] at hg2
             by_cases hk2e : k2 = k + 1
             · simp [hk2e] at hg2; subst hg2; exact ⟨Int.le_refl _, fun _ => rfl⟩
@@ -536,7 +568,7 @@ theorem inv_ofInitial (ih : Int) (hih : 1 ≤ ih) (st : State) (hinit : Initial 
                 simp [hk1] at hg2; subst hg2; exact ⟨Int.le_refl _, fun _ => rfl⟩
               · simp [hk2e, hk2f] at hg2
           · simp [hk1, hk0] at hk
-      · intro k hk
+      · intro _ k hk
         have hk' : tip st < k := hk
         rw [htip] at hk'
         show db.vals.get k = none
@@ -544,6 +576,11 @@ theorem inv_ofInitial (ih : Int) (hih : 1 ≤ ih) (st : State) (hinit : Initial 
         have h1 : ¬ k = ih + 1 := by omega
         have h2 : ¬ k = ih := by omega
         simp [h1, h2]
+      · intro _
+        show (if tip st - 1 = ih then _ else _) = some st.validators
+        rw [htip, hV]
+        have : ih + 1 - 1 = ih := by omega
+        simp [this]
 
 theorem initial_of_genesis (ih : Int) (valz : List Val) (st : State)
     (h : genesisState ih valz = .ok st) (hne : st.validators.vals ≠ []) :
